@@ -9,6 +9,7 @@
 #include <queue>
 #include <array>
 #include "mcx/mcx.h"
+#include "mcx/arena.h"   // (only for the live-allocation count of the C15 leak probes; no heap schedule is started here)
 #include "oracle/geom.h"
 using namespace std;
 using namespace geo;
@@ -322,6 +323,14 @@ static void c03_attached_phase(int G, int k, bool ortho, double buf, int os) {
 struct NOpt { const char *name; bool es, tc, un; };
 static const NOpt NOPTS[] = { {"default nudging", false, false, true}, {"end-segment nudging", true, false, true}, {"end-segment nudging + touching colinear", true, true, true},
                               {"end-segment nudging + touching colinear, no unifying step", true, true, false}, {"touching colinear only", false, true, true} };
+// C15 replay only: build the scene, route, destroy the router -- twice -- and compare the number of live allocations (the leak oracle of the Router histories,
+// applied to scenes the histories do not contain: pin-to-pin connectors under the nudging options).  Reported only if the second run leaks as well.
+template <class F> static void c15_leak_probe(const string &desc, F buildRouteDestroy) {
+    if (!ctx.c15()) return;
+    long b = mcx::heap_live_system(); buildRouteDestroy(); long d1 = mcx::heap_live_system() - b;
+    if (d1 > 0) { long b2 = mcx::heap_live_system(); buildRouteDestroy(); long d2 = mcx::heap_live_system() - b2;
+        if (d2 > 0) ctx.raw_violation("leak", {"site:leak after ~Router"}, desc, mcx::fmt("%ld allocations still live after the router was destroyed (repeatable)", d2)); }
+}
 static void c03_pinpair_phase(int G, int no, double buf) {
     vector<Poly> alpha = shape_alphabet(G, false); const NOpt &O = NOPTS[no];
     ctx.phase(mcx::fmt("C03 orthogonal G=%d three rectangles >=1 cell apart, connector between side pins of two of them, buffer=%g, %s", G, buf, O.name));
@@ -339,6 +348,11 @@ static void c03_pinpair_phase(int G, int no, double buf) {
             ctx.count("transitions"); ctx.count("evaluations");
             string desc = mcx::fmt("orthogonal pin-to-pin buf=%g [%s] scene ", buf, O.name) + scene_str(sc) + mcx::fmt(" conn shape#%d side %d -> shape#%d side %d", a, sa, b, sb);
             try {
+                c15_leak_probe(desc, [&]() { Avoid::Router *r = mk_router(true, 10, buf, {});
+                    r->setRoutingOption(Avoid::nudgeOrthogonalSegmentsConnectedToShapes, O.es); r->setRoutingOption(Avoid::nudgeOrthogonalTouchingColinearSegments, O.tc); r->setRoutingOption(Avoid::performUnifyingNudgingPreprocessingStep, O.un);
+                    vector<Avoid::ShapeRef *> shs; for (auto &sh : sc) { Avoid::Polygon pg(sh.v.size()); for (size_t q = 0; q < sh.v.size(); q++) pg.ps[q] = Avoid::Point(sh.v[q].x * S, sh.v[q].y * S); shs.push_back(new Avoid::ShapeRef(r, pg)); }
+                    new Avoid::ShapeConnectionPin(shs[a], 1, xo[sa], yo[sa], true, 0.0, dirf[sa]); new Avoid::ShapeConnectionPin(shs[b], 2, xo[sb], yo[sb], true, 0.0, dirf[sb]);
+                    new Avoid::ConnRef(r, Avoid::ConnEnd(shs[a], 1), Avoid::ConnEnd(shs[b], 2)); r->processTransaction(); delete r; });
                 Avoid::Router *r = mk_router(true, 10, buf, {});
                 r->setRoutingOption(Avoid::nudgeOrthogonalSegmentsConnectedToShapes, O.es); r->setRoutingOption(Avoid::nudgeOrthogonalTouchingColinearSegments, O.tc);
                 r->setRoutingOption(Avoid::performUnifyingNudgingPreprocessingStep, O.un);
